@@ -98,7 +98,7 @@ func c11Config(r *mrand.Rand, ci int) perso.Opts {
 	case 0:
 		o.Access = perso.BACOnly
 	case 1:
-		o.Access = perso.PACEGMOnly
+		o.Access = perso.PACEGMWithBAC // PACE first, BAC available as fallback
 	case 2:
 		o.Access = perso.PACECAM
 	case 3:
@@ -111,7 +111,7 @@ func c11Config(r *mrand.Rand, ci int) perso.Opts {
 		o.Access = perso.PACEGMOnly
 		o.AA = perso.AAOpts{Kind: 2, Curve: (ci * 7) % 11}
 	case 6:
-		o.Access = perso.PACEGMWithBAC
+		o.Access = perso.PACEGMOnly
 		o.Suite = symref.TDES
 		o.CA = perso.CAOpts{On: true, Curve: ci % 11, Suite: symref.TDES, Arrange: 3}
 	case 7:
@@ -137,6 +137,8 @@ func c11Run(k *fw.K, ci int, faults map[int]string, viaMobile bool, label string
 	r := k.RNG
 	injected := 0
 	exch := 0
+	altered := map[string]bool{} // authentication steps whose exchange was really altered by a fault
+	alteredUnderSM := false
 	wrap := func(next func([]byte) []byte) func([]byte) []byte {
 		return func(raw []byte) []byte {
 			idx := exch
@@ -148,7 +150,31 @@ func c11Run(k *fw.K, ci int, faults map[int]string, viaMobile bool, label string
 			resp := next(raw)
 			if kind, ok := faults[idx]; ok {
 				injected++
-				return c11Fault(r, kind, resp)
+				f := c11Fault(r, kind, resp)
+				// what counts as altered: another status word, or other data where the genuine
+				// response carried data (extra bytes on a status-only response that keep the
+				// status are ignored by the command helpers and change nothing)
+				sameSW := len(f) >= 2 && len(resp) >= 2 && f[len(f)-2] == resp[len(resp)-2] && f[len(f)-1] == resp[len(resp)-1]
+				benign := sameSW && len(resp) == 2
+				if !bytesEq(f, resp) && !benign && len(card.Events) > 0 {
+					ev := card.Events[len(card.Events)-1]
+					if ev.Protected {
+						alteredUnderSM = true
+					}
+					if ev.Cmd != nil {
+						switch {
+						case ev.Cmd.INS == 0x22 && ev.Cmd.P1 == 0xC1, ev.Cmd.INS == 0x86 && !ev.Protected:
+							altered["pace"] = true
+						case ev.Cmd.INS == 0x84, ev.Cmd.INS == 0x82:
+							altered["bac"] = true
+						case ev.Cmd.INS == 0x88:
+							altered["aa"] = true
+						case ev.Cmd.INS == 0x22 && ev.Cmd.P1 == 0x41, ev.Cmd.INS == 0x86 && ev.Protected:
+							altered["ca"] = true
+						}
+					}
+				}
+				return f
 			}
 			return resp
 		}
@@ -258,6 +284,37 @@ func c11Run(k *fw.K, ci int, faults map[int]string, viaMobile bool, label string
 	if s.ActiveAuthResult != nil && s.ActiveAuthResult.Success && (len(card.AAChallenges) == 0 || p.Opts.AA.Kind == 0) {
 		k.Violation("fault:step-success-without-chip:aa", "active authentication reported successful although the chip never signed a challenge", det(""))
 		return injected > 0
+	}
+	// a fault on an exchange of an authentication step leaves a trace: an error, or that step
+	// recorded as failed
+	if err == nil {
+		for step := range altered {
+			var recorded bool
+			switch step {
+			case "pace":
+				recorded = s.PaceErr != nil || (s.PaceResult != nil && !s.PaceResult.Success)
+			case "bac":
+				recorded = s.BacErr != nil || (s.BacResult != nil && !s.BacResult.Success)
+			case "aa":
+				recorded = s.ActiveAuthErr != nil || (s.ActiveAuthResult != nil && !s.ActiveAuthResult.Success)
+			case "ca":
+				recorded = s.ChipAuthErr != nil || (s.ChipAuthResult != nil && !s.ChipAuthResult.Success)
+			}
+			if !recorded {
+				k.Violation("fault:step-fault-left-no-trace:"+step, fmt.Sprintf("an exchange of the %s step was altered (%s) but the read ended without an error and without recording that step as failed", step, label), det(""))
+				return injected > 0
+			}
+		}
+		// every data group is read under secure messaging: after an altered protected exchange a
+		// read that ends without an error must still hold every listed, stored, supported file
+		if alteredUnderSM {
+			for _, n := range supportedDGs {
+				if _, ok := p.DGFiles[n]; ok && docFile(d, fmt.Sprintf("DG%d", n)) == nil {
+					k.Violation("fault:file-silently-missing-after-protected-fault", fmt.Sprintf("DG%d is stored and listed but missing, and the read ended without an error although a protected exchange was altered (%s)", n, label), det(""))
+					return injected > 0
+				}
+			}
+		}
 	}
 	sum := docEx.Summary()
 	if sum.DataTrusted {
